@@ -6,7 +6,8 @@
 //!   * crash seam      - `RLIMIT_FSIZE` (the kernel kills the writer at byte n);
 //!   * hook seam       - `ska::verif_hooks::sched_point` (a per-process subset of sites is live).
 //! Exit status: 0 = main returned, 101 = main panicked (a refusal), 1 = ska called exit(1),
-//! 3 = the simulation itself failed (deadlock / step cap), signal = crash.
+//! 3 = the simulation itself failed (deadlock), 4 = the harness step cap was reached (a harness
+//! error, exit 2 of the check), signal = crash.
 
 use std::sync::atomic::{AtomicBool, AtomicU32, AtomicU64, Ordering};
 use std::sync::Mutex;
@@ -351,8 +352,14 @@ pub fn child_main() -> ! {
     }
     let mut exit = code.load(Ordering::SeqCst);
     if outer.is_err() {
-        eprintln!("SKASIM-FAIL simulation aborted (deadlock, step cap or panic outside main)");
-        exit = 3;
+        // the step cap is a limit of this harness, not a liveness failure of the program: its own status
+        if STEPS.load(Ordering::Relaxed) as usize + 1 >= max_steps {
+            eprintln!("SKASIM-FAIL step cap of {max_steps} scheduling steps reached");
+            exit = 4;
+        } else {
+            eprintln!("SKASIM-FAIL simulation aborted (deadlock or panic outside main)");
+            exit = 3;
+        }
     }
     let hits: Vec<u64> = HOOK_HITS.iter().map(|a| a.load(Ordering::Relaxed)).collect();
     let workers: Vec<u32> = HOOK_WORKERS
